@@ -12,7 +12,7 @@ import (
 func init() {
 	register("C12", &propDef{
 		Title: "Failures are reported, never turned into silently partial results",
-		Rules: []func(*Checker){ruleC12Errors, ruleC12Illegal, ruleC12Whole, ruleC12Poison, ruleC12Closed, ruleC12Manifest, ruleC12Diags},
+		Rules: []func(*Checker){ruleC12Errors, ruleC12Illegal, ruleC12Whole, ruleC12Poison, ruleC12Closed, ruleC12Manifest, ruleC12Diags, ruleC12DiagCopy},
 		NotDecided: []string{
 			"behaviour at a given byte offset; what archive/tar and compress/gzip report on truncation (library)",
 			"which error text is produced",
@@ -1088,4 +1088,47 @@ func readAfterDefers(al *ssa.Alloc) bool {
 		}
 	}
 	return false
+}
+
+
+// C12.diagcopy — diagnostics are rewritten on copies.
+func ruleC12DiagCopy(c *Checker) {
+	const R = "C12.diagcopy"
+	c.rule(R, "Bundle-building code never stores through memory an interface implementation handed out (the *SourceRange pointers inside the DiagSource a finder's diagnostic returns, slices returned by a finder, fetcher or registry client): file names are rewritten on a copy. Writing through such a pointer changes the caller's own diagnostic, so a diagnostic value raised for two packages names the first package's address for both.", 1)
+	p := c.P
+	n := 0
+	for _, fn := range p.Funcs {
+		if !inBundlePkg(p, fn) || isInitFunc(fn) {
+			continue
+		}
+		eachInstr(fn, func(in ssa.Instruction) {
+			var addr ssa.Value
+			switch x := in.(type) {
+			case *ssa.Store:
+				addr = x.Addr
+			case *ssa.MapUpdate:
+				addr = x.Map
+			default:
+				return
+			}
+			if al, ok := addr.(*ssa.Alloc); ok && !al.Heap {
+				return
+			}
+			n++
+			var roots []aliasRoot
+			p.aliasRoots(addr, 3, map[ssa.Value]bool{}, &roots)
+			for _, r := range roots {
+				if r.Kind != "foreign" {
+					continue
+				}
+				what := "an interface method"
+				if cl, ok := r.V.(*ssa.Call); ok && cl.Call.Method != nil {
+					what = cl.Call.Method.Name() + "() of " + types.TypeString(cl.Call.Value.Type(), func(*types.Package) string { return "" })
+				}
+				c.fail(R, p.FuncName(fn), "store through the result of "+what, p.Pos(in.Pos()), "a store writes through memory obtained from "+what+": the implementation's own value is modified instead of a copy (a diagnostic shared between two packages then names the first package's address for both)")
+				return
+			}
+		})
+	}
+	c.pass(R, "-", "stores inspected", "-", fmt.Sprintf("%d store(s) in sourcebundle resolved to their alias roots; none not reported writes through an interface implementation's storage", n))
 }
